@@ -219,12 +219,20 @@ def viewOk (c : Config) (loc : Nat) (v : View) : Bool :=
   && v.provs.all (fun r => decide (r.provider ≠ loc) || v.provided.contains r)
   && decide (v.provided.map (·.key)).Nodup
 
+/-- the `provided()` clauses of `viewOk` alone: `provided()` = exactly the records of `providers(·)`
+whose provider is the local node, compared field by field (key, provider, expires, addresses) -/
+def providedOk (loc : Nat) (v : View) : Bool :=
+  v.provided.all (fun r => decide (r.provider = loc) && v.provs.contains r)
+  && v.provs.all (fun r => decide (r.provider ≠ loc) || v.provided.contains r)
+  && decide (v.provided.map (·.key)).Nodup
+
 def specKeys (v v' : View) (extra : Nat) : List Nat :=
   extra :: (v.records.map (·.key) ++ v'.records.map (·.key) ++ v.provs.map (·.key) ++ v'.provs.map (·.key))
 
 /-- transition relation; returns the key of the violated clause -/
 def specStep (c : Config) (loc : Nat) (v : View) (op : Op) (out : Res) (v' : View) : Option String :=
-  if !viewOk c loc v' then some "state_invariant" else
+  if !viewOk c loc v' then
+    some (if !providedOk loc v' then "provided_exact" else "state_invariant") else
   match op with
   | .get k =>
     if out == .got (v.get k) && v' == v then none else some "get_latest_put"
